@@ -10,7 +10,10 @@
     (which pending publication of which stage is attempted next; labels that are not enabled
     are skipped, so [ls] ranges over all interleavings). *)
 From WM Require Import Base.Prelude Message.Model Handler.RouterHandle Handler.RouterProofs
-     GoChannel.Sub GoChannel.SubProofs Pipeline.Model Pipeline.Proofs Pipeline.Final Pipeline.SubLink Corr.C01 Pipeline.Example.
+     GoChannel.Reg GoChannel.RegSend GoChannel.Sub GoChannel.SubProofs
+     Pipeline.TopicModel Pipeline.TopicRefine
+     Pipeline.Model Pipeline.Proofs Pipeline.Final Pipeline.SubLink Pipeline.ImmModel Pipeline.ImmProofs
+     Corr.C01 Pipeline.Example.
 
 Section C01.
   Context {M : Type}.
@@ -60,6 +63,29 @@ Section C01.
     (forall d, In d (unfollowed eqbM (dlog st)) -> In (d_msg d) (topic st (d_stage d)))
     /\ (quiescentb k st = true -> redelivery_ok eqbM (dlog st) = true).
   Proof. exact (redelivered_until_acked hf eqbM eqbM_spec). Qed.
+
+  (** redelivery is IMMEDIATE (C05's one-in-flight seen from the pipeline): [pstep_imm] = [pstep]
+      with the guard "while the last attempt of stage s ended in a Nack - its Sender still holds the
+      sending lock - only the same message can be attempted at s".  Every guarded run is a run
+      (so every theorem above holds of it), passes the monitor [immediate_ok], is finite under every
+      scheduler, and is never blocked by the guard while something is pending *)
+  Theorem C01_guarded_run_is_run : forall k sc ls st,
+    prun_imm hf eqbM rt_handle k sc st ls
+    = prun hf eqbM rt_handle k sc st (taken_imm hf eqbM rt_handle k sc st ls).
+  Proof. exact (prun_imm_prun hf eqbM). Qed.
+
+  Theorem C01_redelivery_is_immediate : forall k sc srcs ls,
+    immediate_ok eqbM (dlog (prun_imm hf eqbM rt_handle k sc (pinit srcs) ls)) = true.
+  Proof. exact (immediate_run hf eqbM eqbM_spec). Qed.
+
+  Theorem C01_at_least_once_immediate : forall k sc srcs ls, eventually_clean k sc ->
+    let st := prun_imm hf eqbM rt_handle k sc (pinit srcs) ls in
+    Acc (psucc_imm hf eqbM k sc) st
+    /\ (quiescentb k st = false -> exists l, pstep_imm hf eqbM rt_handle k sc st l <> None)
+    /\ (quiescentb k st = true ->
+          (forall y, In y (expected_sink hf k srcs) -> In y (topic st k))
+          /\ sink_complete hf eqbM k srcs (topic st k) = true).
+  Proof. exact (at_least_once_imm hf eqbM eqbM_spec). Qed.
 
   (** never lost: at every moment every expected arrival is at the final topic or has a
       pending ancestor at some topic *)
@@ -136,10 +162,58 @@ Theorem C01_topic_resends_only_after_nack : forall cap0 fx ls,
   c_st (copies s c1) = Nacked.
 Proof. exact no_duplicate_without_nack. Qed.
 
+(** ** the topic abstraction is a THEOREM about the two GoChannel layers (Pipeline/TopicModel.v:
+    Layer B = the registry of pubsub.go over all topics, threads and subscriptions, composed with
+    Layer A = the send loop of subscription x; no cancel / teardown of x, no Close).  [abs] = the
+    publications that have a Sender for x and no Acked copy.  Every step of the composed system is
+    the abstract topic step [lab] names: a registry step = the topic accepts exactly the
+    publications that got a Sender; the consumer's Ack of an unsettled copy = the publication
+    leaves; its Nack = it stays; everything else = nothing. *)
+Theorem C01_topic_refines_step : forall x st l st', CInv x st -> cstep x st l = Some st' ->
+  CInv x st' /\ tstep (abs x st) (lab x st l st') = Some (abs x st').
+Proof. exact crefine_step. Qed.
+
+Theorem C01_topic_refines : forall x pers blk fx cap0 sfx ls,
+  let st0 := cinit pers blk fx cap0 sfx in
+  treplay [] (ctrace x st0 ls) = Some (abs x (crun x st0 ls)).
+Proof. exact topic_refines. Qed.
+
+(** Layer B gives exactly one Sender per accepted publication: the composition never blocks the
+    registry ([sender_unique]), and the snapshot step of Publish hands x the publication iff x is
+    registered on that topic ([snapshot_complete]) *)
+Theorem C01_topic_spawn_enabled : forall x st bl g', CInv x st -> b_label_ok x bl = true ->
+  gstep (fst st) bl = Some g' -> cstep x st (CB bl) <> None.
+Proof. exact spawn_enabled. Qed.
+
+Theorem C01_topic_accept_on_publish : forall x g t k p rem g', RegSend.Inv g ->
+  Reg.thr g t = PSend k (p :: rem) -> gstep g (GT t) = Some g' ->
+  pubs_of x (grown g g') = if mem x (subs g k) then [p] else [].
+Proof. exact accept_on_publish. Qed.
+
+(** Layer A: every unsettled copy is a copy of a pending publication, and at most one is in flight *)
+Theorem C01_topic_unsettled_copy_is_pending : forall x g a c, SInv a -> Cpl x g a -> c < next a ->
+  c_st (copies a c) = Unsettled -> In (c_pub (copies a c)) (abs x (g, a)).
+Proof. exact unsettled_pending. Qed.
+
+Theorem C01_topic_one_in_flight : forall x st, CInv x st -> length (outstanding (snd st)) <= 1.
+Proof. exact topic_one_in_flight. Qed.
+
+(** from publication ids to the message lists of the pipeline model: under any labelling the
+    abstract Ack is the model's [remove_first], up to the order of the list *)
+Theorem C01_topic_ack_is_remove_first : forall (M : Type) (eqbM : M -> M -> bool),
+  (forall a b, eqbM a b = true <-> a = b) -> forall (f : Reg.pubid -> M) p pend,
+  NoDup pend -> In p pend ->
+  exists rest, remove_first eqbM (f p) (map f pend) = Some rest
+               /\ Permutation.Permutation rest (map f (filter (fun q => negb (Nat.eqb q p)) pend)).
+Proof. exact @topic_list_ack. Qed.
+
 Print Assumptions C01_nothing_invented.
 Print Assumptions C01_ack_only_after_next_accepted.
 Print Assumptions C01_pending_until_acked.
 Print Assumptions C01_redelivered_until_acked.
+Print Assumptions C01_guarded_run_is_run.
+Print Assumptions C01_redelivery_is_immediate.
+Print Assumptions C01_at_least_once_immediate.
 Print Assumptions C01_never_lost.
 Print Assumptions C01_at_least_once.
 Print Assumptions C01_every_source_reaches_the_sink.
@@ -148,6 +222,13 @@ Print Assumptions C01_model_accepted.
 Print Assumptions C01_finite_scripts_are_fair.
 Print Assumptions C01_topic_attempt_loop.
 Print Assumptions C01_topic_resends_only_after_nack.
+Print Assumptions C01_topic_refines_step.
+Print Assumptions C01_topic_refines.
+Print Assumptions C01_topic_spawn_enabled.
+Print Assumptions C01_topic_accept_on_publish.
+Print Assumptions C01_topic_unsettled_copy_is_pending.
+Print Assumptions C01_topic_one_in_flight.
+Print Assumptions C01_topic_ack_is_remove_first.
 
 (** non-vacuity (Pipeline/Example.v): 2 stages, stage 0 fans out to 2; sources 7 and 8; the first
     attempt of stage 0 fails in Publish after the next topic accepted 1 of 2 outputs, the second
